@@ -405,7 +405,12 @@ Effect(S, c) ==
                       IN IF nb2 = Len(S1.p[c.p].q) THEN Unblk(S2, c.p) ELSE S2
             ELSE SetP(DispAll([S EXCEPT !.ret = "0"], c.p), c.p, "pm", 1)
       [] c.op = "adv" -> IF S.m.det THEN AdvLoop(S, S.now + c.t) ELSE [S EXCEPT !.now = @ + c.t]
-      [] c.op = "provall" -> IF S.m.det THEN ProvAll(S, S.s[c.s].rq) ELSE S
+      \* the sink answers the clock requests first, then the others in registration order (re-plumbing moves
+      \* registrations around: the order among requests of different kinds is fixed by the harness instead)
+      [] c.op = "provall" -> IF S.m.det
+                             THEN ProvAll(S, SelectSeq(S.s[c.s].rq, LAMBDA y : S.p[y].k = "time_limit")
+                                             \o SelectSeq(S.s[c.s].rq, LAMBDA y : S.p[y].k # "time_limit"))
+                             ELSE S
       [] c.op = "flush" ->
             IF S.p[c.p].k = "time_limit"
             THEN [Unblk(IF Variant = "noflush" THEN S ELSE FreeAll(S, c.p, S.p[c.p].q), c.p) EXCEPT !.p[c.p].q = <<>>, !.p[c.p].tm = -1]
